@@ -16,16 +16,18 @@ TET5_EVEN = [(0, 1, 3, 4), (1, 2, 3, 6), (1, 4, 5, 6), (3, 4, 6, 7), (1, 3, 4, 6
 TET5_ODD = [(1, 0, 5, 2), (0, 3, 2, 7), (0, 5, 4, 7), (2, 5, 7, 6), (0, 2, 5, 7)]
 
 
-def hex_block(nx, ny, nz, rng, jitter=0.2, scale=(1.0, 1.0, 1.0), origin=(0.0, 0.0, 0.0)):
-    """Perturbed hexahedral block; jitter is relative to the cell size (< 0.25 keeps every corner Jacobian regular)."""
+def hex_block(nx, ny, nz, rng, jitter=0.2, scale=(1.0, 1.0, 1.0), origin=(0.0, 0.0, 0.0), shear=(0.0, 0.0, 0.0)):
+    """Perturbed hexahedral block; jitter is relative to the cell size (< 0.25 keeps every corner Jacobian regular);
+    shear (a, b, c): x += a*y + b*z, y += c*z applied to the perturbed lattice (oblique cells, obtuse corner angles)."""
     nid = lambda i, j, k: i + (nx + 1) * (j + (ny + 1) * k)
     coords = [None] * ((nx + 1) * (ny + 1) * (nz + 1))
     grid = {}
     for k in range(nz + 1):
         for j in range(ny + 1):
             for i in range(nx + 1):
-                p = [origin[d] + scale[d] * (c + jitter * rng.uniform(-1, 1)) for d, c in enumerate((i, j, k))]
-                coords[nid(i, j, k)] = tuple(p)
+                p = [scale[d] * (c + jitter * rng.uniform(-1, 1)) for d, c in enumerate((i, j, k))]
+                p = [p[0] + shear[0] * p[1] + shear[1] * p[2], p[1] + shear[2] * p[2], p[2]]
+                coords[nid(i, j, k)] = tuple(origin[d] + p[d] for d in range(3))
                 grid[nid(i, j, k)] = (i, j, k)
     elements = []
     for k in range(nz):
